@@ -50,7 +50,8 @@ def true_volume(kind, a):
         return quad_profile(lambda z: (r1 + (r2 - r1) * z / h) ** 2, 0, h)
     if kind in ("lens", "union2"):
         r1, r2, d = a
-        lens = quad_profile(lambda z: np.maximum(0, np.minimum(r1 * r1 - z * z, r2 * r2 - (z - d) ** 2)), -r1, r1)
+        lo, hi = max(-r1, d - r2), min(r1, d + r2)          # the overlap along the axis (resolves lenses of any thinness)
+        lens = quad_profile(lambda z: np.maximum(0, np.minimum(r1 * r1 - z * z, r2 * r2 - (z - d) ** 2)), lo, hi) if lo < hi else 0.0
         if kind == "lens":
             return lens
         return 4 / 3 * math.pi * (r1 ** 3 + r2 ** 3) - lens
@@ -74,6 +75,39 @@ def in_band(kind, a):
     return False
 
 
+# "all orientations / everywhere in space": distance of the solids from the origin in units of their own size. Volumes are
+# translation invariant, so the closed forms (which derive d and h from the stored centres) must not depend on it. 1e5 is a
+# whole-brain coordinate in micrometres next to a radius of 1; in float64 it costs ~1e-11 of relative accuracy.
+FAR = [2.0 ** 14, 2.0 ** 16, 1e5, 2.0 ** 18]
+# how the caller hands a centre over ...
+HANDOVER = ["tuple", "list", "f64", "row", "strided", "f32"]
+# ... and what the caller does with ITS OWN object after the solid has been constructed, before the (lazy) volume query:
+#   buffer    one coordinate buffer per argument position, refilled for every solid and again for the "next node" afterwards
+#   overwrite every array handed over is overwritten in place with unrelated coordinates
+#   requery   volume asked, arrays overwritten, volume asked again (same composite, and the same solids combined anew)
+THEN = ["none", "buffer", "overwrite", "requery"]
+COMPOSITE = ("frustum", "lens", "union2", "concentric", "sfunion")       # kinds whose closed form reads a centre
+
+
+def _carrier(how, rng):
+    """an object of the given kind, owned by the caller, that can hold one centre"""
+    if how == "f64":
+        return np.empty(3, dtype=np.float64)
+    if how == "row":                                   # a row of a (n, 3) coordinate table: contiguous view with a base
+        return np.zeros((4, 3), dtype=np.float64)[rng.randrange(4)]
+    if how == "strided":                               # a column of a (3, n) table: non-contiguous view
+        return np.zeros((3, 5), dtype=np.float64)[:, rng.randrange(5)]
+    if how == "f32":
+        return np.empty(3, dtype=np.float32)
+    if how == "list":
+        return [0.0, 0.0, 0.0]
+    raise ValueError(how)
+
+
+def _dist(p, q):
+    return math.sqrt(math.fsum((float(x) - float(y)) ** 2 for x, y in zip(p, q)))
+
+
 class Closed(Suite):
     name = "c13.closed"
     case_timeout = 60
@@ -83,11 +117,32 @@ class Closed(Suite):
         n = 12 if tier == "quick" and not widen else 80
         g = lambda lo=0.125, hi=8.0: rng.randint(int(lo * 16), int(hi * 16)) / 16
 
-        def add(kind, a, cls):
+        def add(kind, a, cls, **extra):
             # "for every size": the same configuration at several length scales (exact powers of two / ten on dyadic inputs)
             sc = rng.choice([1.0, 1.0, 1.0, 1e-3, 1 / 64, 128.0, 1e-2])
-            out.append({"class": f"{kind}/{cls}" + ("" if sc == 1.0 else "/scaled"), "kind": kind, "a": [float(x) * sc for x in a], "seed": rng.randrange(10**6),
-                        "flip": rng.random() < 0.5, "scale": sc})
+            fam = extra.get("family")
+            out.append({"class": f"{kind}/{cls}" + ("" if sc == 1.0 else "/scaled") + (f"/{fam}" if fam else ""), "kind": kind,
+                        "a": [float(x) * sc for x in a], "seed": rng.randrange(10**6), "flip": rng.random() < 0.5, "scale": sc, **extra})
+
+        def pick(kind):
+            """one configuration of the kind, over the same classes as the main loop"""
+            if kind == "frustum":
+                return [g(), g(), g()], "-"
+            if kind in ("lens", "union2"):
+                r1, r2 = g(), g()
+                return rng.choice([
+                    ([r1, r2, r1 + r2 + g()], "disjoint"), ([r1, r2, r1 + r2], "tangent-out"), ([r1, r2, abs(r1 - r2)], "tangent-in"),
+                    ([r1, r2, abs(r1 - r2) * rng.random()], "nested"), ([r1, r2, 0.0], "concentric"),
+                    ([r1, r2, rng.uniform(abs(r1 - r2), r1 + r2)], "proper"), ([r1, r2, rng.uniform(abs(r1 - r2), r1 + r2)], "proper"),
+                    ([r1, r1, rng.uniform(0, 2 * r1)], "equal-radii")])
+            r1 = g()
+            r2 = r1 * rng.uniform(0.05, 0.95)
+            r2s = r1 * rng.uniform(0.05, 0.6)
+            hs = math.sqrt(max(r1 * r1 - r2s * r2s, 0)) * rng.uniform(0.1, 0.9)
+            return rng.choice([
+                ([r1, r1 + g(), r1 + g()], "wide-high"), ([r1, r1 + g(), r1 * rng.uniform(0.05, 0.99)], "wide-low"), ([r1, r1, g()], "cylinder"),
+                ([r1, r2, r1 + g()], "narrow-high"), ([r1, r2, r1 * rng.uniform(0.3, 0.99)], "narrow-low"), ([r1, r2s, hs], "inside"),
+                ([r1, r2, r1], "h-eq-r1")])
 
         for _ in range(n):
             add("sphere", [g()], "-")
@@ -115,6 +170,22 @@ class Closed(Suite):
                 hs = math.sqrt(max(r1 * r1 - r2s * r2s, 0)) * rng.uniform(0.1, 0.9)
                 add(kind, [r1, r2s, hs], "inside")
                 add(kind, [r1, r2, r1], "h-eq-r1")
+        # --- position in space: the same configurations far from the origin relative to their size (every kind, every round)
+        for _ in range(n):
+            for kind in COMPOSITE:
+                a, cls = pick(kind)
+                add(kind, a, cls, family="far", far=rng.choice(FAR))
+        # --- the solid is the one that was constructed: container / dtype of the centre argument, and what the caller does with
+        #     its own arrays afterwards (buffer reuse, overwriting, asking twice)
+        for i in range(n):
+            for kind in COMPOSITE:
+                a, cls = pick(kind)
+                how = rng.choice(HANDOVER)
+                add(kind, a, cls, family="handover", hand=how, then="none" if how == "tuple" else rng.choice(THEN))
+            # guaranteed share: caller-owned float64 arrays that are written to after construction, each kind in turn
+            kind = COMPOSITE[i % len(COMPOSITE)]
+            a, cls = pick(kind)
+            add(kind, a, cls, family="handover", hand=rng.choice(["f64", "row", "strided"]), then=rng.choice(["buffer", "overwrite"]))
         return out
 
     def run(self, case):
@@ -126,49 +197,115 @@ class Closed(Suite):
         np.random.seed(case["seed"] % (2**31))
         kind, a = case["kind"], case["a"]
         R, off = _rot(rng)
+        size = max(max(a), 1e-300)
+        if case.get("far"):
+            u = np.array([rng.gauss(0, 1) for _ in range(3)])
+            off = u / np.linalg.norm(u) * case["far"] * size
         P = lambda z: (R @ np.array([0.0, 0.0, z]) + off)
+
+        # how the centres reach the constructors; `given` = the values the constructor received, by axial position
+        how, then = case.get("hand"), case.get("then", "none")
+        owned, bufs, given = [], {}, {}
+
+        def put(c, p):
+            c[:] = [float(x) for x in p]
+
+        def H(z, slot=0):
+            p = P(z)
+            if how is None:
+                return p                                # a fresh float64 array nobody else holds
+            if how == "tuple":
+                c = tuple(float(x) for x in p)
+            elif then == "buffer":
+                c = bufs[slot] if slot in bufs else bufs.setdefault(slot, _carrier(how, rng))
+                put(c, p)
+            else:
+                c = _carrier(how, rng)
+                put(c, p)
+                owned.append(c)
+            given[z] = [float(x) for x in c]
+            return c
+
+        def caller_moves_on():
+            # the caller goes on with its own work: refills its buffers with the next node / overwrites the arrays it passed
+            for c in list(bufs.values()) + owned:
+                put(c, off + size * np.array([rng.gauss(0, 3) for _ in range(3)]))
+
+        again = None
         if kind == "sphere":
-            v = VolSphere(P(0), a[0]).get_volume()
+            query = VolSphere(H(0), a[0]).get_volume
         elif kind == "cap":
-            v = VolSphere(P(0), a[0]).get_volume_spherical_cap(a[1])
+            s0 = VolSphere(H(0), a[0])
+            query = lambda: s0.get_volume_spherical_cap(a[1])
         elif kind == "frustum":
-            v = VolFrustumCone(P(0), a[0], P(a[2]), a[1]).get_volume()
+            query = VolFrustumCone(H(0, 0), a[0], H(a[2], 1), a[1]).get_volume
         elif kind in ("lens", "union2"):
-            s1, s2 = VolSphere(P(0), a[0]), VolSphere(P(a[2]), a[1])
+            s1, s2 = VolSphere(H(0), a[0]), VolSphere(H(a[2]), a[1])      # consecutive nodes: same argument position, same buffer
             if case["flip"]:
                 s1, s2 = s2, s1
-            v = (s1.intersect(s2) if kind == "lens" else s1.union(s2)).get_volume()
+            again = (lambda: s1.intersect(s2)) if kind == "lens" else (lambda: s1.union(s2))
+            query = again().get_volume
         else:
             r1, r2, h = a
-            s = VolSphere(P(0), r1)
-            f = VolFrustumCone(P(h), r2, P(0), r1) if case["flip"] else VolFrustumCone(P(0), r1, P(h), r2)
+            s = VolSphere(H(0), r1)
+            f = VolFrustumCone(H(h, 1), r2, H(0, 0), r1) if case["flip"] else VolFrustumCone(H(0, 0), r1, H(h, 1), r2)
             if case["seed"] % 3 == 0 and kind == "sfunion":
                 # either solid may be the receiver of the closed-form UNION (frustum.intersect(sphere) is the sampling path: outside)
-                v = f.union(s).get_volume()
+                again = lambda: f.union(s)
             else:
-                v = (s.intersect(f) if kind == "concentric" else s.union(f)).get_volume()
-        return {"v": float(v)}
+                again = (lambda: s.intersect(f)) if kind == "concentric" else (lambda: s.union(f))
+            query = again().get_volume
+        out = {}
+        if then == "requery":
+            out["v_first"] = float(query())
+        if then != "none":
+            caller_moves_on()
+        out["v"] = float(query())
+        if then == "requery" and again is not None:
+            out["v_anew"] = float(again().get_volume())
+        if how == "f32" and len(a) == 3 and kind != "cap":
+            # single-precision coordinates: the solid that was built has the rounded centres; its own distance / height
+            out["a_real"] = [a[0], a[1], _dist(given[0], given[a[2]])]
+        return out
+
+    @staticmethod
+    def _a(case, res):
+        return res.get("a_real", case["a"]) if isinstance(res, dict) else case["a"]
 
     def lines(self, case, res):
         if "exc" in res:
             return []
-        kind, a = case["kind"], case["a"]
+        kind, a = case["kind"], self._a(case, res)
         exact = kind in ("sphere", "cap", "frustum", "lens", "union2")
-        # spheres are placed by a float rotation, so d / h are recovered up to rounding
+        # spheres are placed by a float rotation, so d / h are recovered up to rounding (float32 rounding when the caller's array is float32)
+        t = (1e-7 if exact else 2e-6) if case.get("hand") != "f32" else 2e-5
         return [(f"vol f={kind} a={','.join(repr(x) for x in a)}",
-                 {"approx": [res["v"]], "rtol": 1e-7 if exact else 2e-6, "atol": (1e-7 if exact else 2e-6) * min(1.0, case.get("scale", 1.0)) ** 3})]
+                 {"approx": [res["v"]], "rtol": t, "atol": t * min(1.0, case.get("scale", 1.0)) ** 3})]
 
     def oracle(self, case, res):
-        kind, a = case["kind"], case["a"]
+        kind, a = case["kind"], self._a(case, res)
         if "exc" in res:
             return [(f"{kind}-raises", f"{kind}{a} raised {res['exc']}: {res.get('msg')}")]
         tv = true_volume(kind, a)
         sc = case.get("scale", 1.0)
         unit = max(1.0, abs(tv)) if sc == 1.0 else abs(tv) + 1e-9 * sc ** 3      # relative at every length scale
         tol = 1e-4 * unit if not in_band(kind, a) else max(1e-2, 5e-6 / max(a[0], 1e-300)) * unit
-        if abs(res["v"] - tv) > tol:
-            return [(f"{kind}-volume/{case['class'].split('/')[1]}", f"{kind}{a}: reported {res['v']!r}, true volume (quadrature of the profile) {tv!r}")]
-        return []
+        if case.get("hand") == "f32":
+            # the caller chose single precision: d / h of the rounded centres are computed in float32 (a few ulp, 2^-23 each), and
+            # dV/dd, dV/dh are at most π·size² — ordinary rounding, relative to the solids and not to a thin lens
+            tol += 2e-6 * max(a) ** 3
+        cls, fam = case["class"].split("/")[1], case.get("family")
+        where = ""
+        if fam == "far":
+            where = f" [solids placed {case['far']:g} x their size away from the origin]"
+        elif fam == "handover":
+            where = f" [centres handed over as {case['hand']}; caller's own arrays afterwards: {case['then']}]"
+        bad = []
+        for field, tag in (("v_first", "/first-query"), ("v", ""), ("v_anew", "/combined-anew")):
+            if field in res and abs(res[field] - tv) > tol:
+                bad.append((f"{kind}-volume/{cls}" + (f"/{fam}" if fam else "") + tag,
+                            f"{kind}{a}: reported {res[field]!r}, true volume (quadrature of the profile) {tv!r}{where}"))
+        return bad[:1]
 
     def nontrivial(self, case, res):
         return case["kind"] not in ("sphere",)
